@@ -16,6 +16,7 @@ var vxC16Prefixes = []string{
 	"", "x ", "x\n", ")", "1", "0x", "0b1", "1e", "1.5e+", "0x1p", "1_", "\"\\", "\"\\u00", "\"\\x", "'\\", "'\\U0010",
 	"`a\r", "/*", "/* *", "..", "x /", "<", "&", "=", "-", ">>", "&^", "'", "x\r", "0o", "1.", "0_", "'\\x", "\"\\1",
 	"//", "x //", "x /*", "//line ", "/*line :", "return", "x.", "1i",
+	"0X", "0B", "0O", "0X1P", "1E", "0x_", "0X_", "1E+",
 }
 
 // vxXGoOnly: tokens that only the XGo scanner produces (not Go lexemes).
